@@ -111,34 +111,39 @@ def readColumn (long : Bool) (ty : ColType) :
     let (c, r) ← ty.readValue long bs
     readColumn long ty rows r ((row ++ [c]) :: acc)
 
+/-- all columns in turn (column-major) -/
+def readCols (long : Bool) : List Column → List (List Cell) → Bytes → Res (List (List Cell))
+  | [], rows, _ => pure rows
+  | c :: cs, rows, bs => do
+    let (rows', r) ← readColumn long c.coltype rows bs []
+    readCols long cs rows' r
+
 /-- `Table::read_rows` (column-major) -/
-def readRows (t : Table) (data : Bytes) : Res (List (List Cell)) := do
+def readRows (t : Table) (data : Bytes) : Res (List (List Cell)) :=
   let rowSize := t.rowSize
   let numRows := if rowSize > 0 then data.length / rowSize else 0
   if numRows > Gen.maxTableRows then .err .invalidData else
-  let rec cols : List Column → List (List Cell) → Bytes → Res (List (List Cell))
-    | [], rows, _ => pure rows
-    | c :: cs, rows, bs => do
-      let (rows', r) ← readColumn t.longRefs c.coltype rows bs []
-      cols cs rows' r
-  cols t.columns (List.replicate numRows []) data
+  readCols t.longRefs t.columns (List.replicate numRows []) data
 
-/-- `Table::write_rows`; `row[index]` panics on a short row -/
+/-- one column of `write_rows`: cell `i` of every row; `row[index]` panics on a short row -/
+def writeCol (long : Bool) (ty : ColType) (i : Nat) : List (List Cell) → Bytes → Res Bytes
+  | [], acc => pure acc
+  | row :: rest, acc =>
+    match row[i]? with
+    | none => .panic "row index out of range in write_rows"
+    | some c => do
+      let bs ← ty.writeValue long c
+      writeCol long ty i rest (acc ++ bs)
+
+def writeCols (long : Bool) (rows : List (List Cell)) : List Column → Nat → Bytes → Res Bytes
+  | [], _, acc => pure acc
+  | c :: cs, i, acc => do
+    let acc' ← writeCol long c.coltype i rows acc
+    writeCols long rows cs (i + 1) acc'
+
+/-- `Table::write_rows` -/
 def writeRows (t : Table) (rows : List (List Cell)) : Res Bytes :=
-  let rec col (ty : ColType) (i : Nat) : List (List Cell) → Bytes → Res Bytes
-    | [], acc => pure acc
-    | row :: rest, acc =>
-      match row[i]? with
-      | none => .panic "row index out of range in write_rows"
-      | some c => do
-        let bs ← ty.writeValue t.longRefs c
-        col ty i rest (acc ++ bs)
-  let rec cols : List Column → Nat → Bytes → Res Bytes
-    | [], _, acc => pure acc
-    | c :: cs, i, acc => do
-      let acc' ← col c.coltype i rows acc
-      cols cs (i + 1) acc'
-  cols t.columns 0 []
+  writeCols t.longRefs rows t.columns 0 []
 
 end Table
 end MsiModel
